@@ -162,40 +162,78 @@ def precondition(ev, st, ctx, what, cond):
 
 # ---------------------------------------------------------- range reasoning
 
-def arange(ev, st, t, depth=0):
-    """unsigned interval of t refined by the path assumptions of st"""
-    lo, hi = T.urange(t)
-    if t.op == "const":
-        return lo, hi
-    for a in st.assume:
+_AIDX = {}
+
+
+def assume_index(assume):
+    """constraints on individual terms extracted from a tuple of assumptions: term id -> [(kind, const)]"""
+    k = id(assume)
+    e = _AIDX.get(k)
+    if e is not None and e[0] is assume:
+        return e[1], e[2]
+    idx = {}
+    aset = set()
+    for a in assume:
+        aset.add(a.id)
         neg = False
         x = a
         if x.op == "aff" and x.w == 1 and (x.aux[0] & 1) and len(x.args) == 1 and x.aux[1] == (1,):
             neg = True
             x = x.args[0]
-        if x.op == "eqz" and x.args[0] is t:
-            if neg:
-                lo = max(lo, 1)
-            else:
-                lo, hi = 0, 0
-        if x.op == "ult":
+        if x.op == "eqz":
+            idx.setdefault(x.args[0].id, []).append(("ne0" if neg else "eq0", 0))
+        elif x.op == "ult":
             p, q = x.args
-            if p is t and q.op == "const":
-                if not neg:
-                    hi = min(hi, q.aux - 1)
-                else:
-                    lo = max(lo, q.aux)
-            elif q is t and p.op == "const":
-                if not neg:
-                    lo = max(lo, p.aux + 1)
-                else:
-                    hi = min(hi, p.aux)
-    if depth == 0 and st.assume and lo == 0 and t.op in ("aff", "sym", "rng", "res", "select"):
+            if q.op == "const":
+                idx.setdefault(p.id, []).append(("ge" if neg else "lt", q.aux))
+            if p.op == "const":
+                idx.setdefault(q.id, []).append(("le" if neg else "gt", p.aux))
+    if len(_AIDX) > 20000:
+        _AIDX.clear()
+    _AIDX[k] = (assume, idx, aset)
+    return idx, aset
+
+
+_ARANGE_MEMO = {}
+
+
+def arange(ev, st, t, depth=0):
+    """unsigned interval of t refined by the path assumptions of st"""
+    if t.op == "const":
+        return t.aux, t.aux
+    mk = (id(st.assume), t.id)
+    hit = _ARANGE_MEMO.get(mk)
+    if hit is not None and hit[0] is st.assume:
+        return hit[1]
+    r = _arange(ev, st, t, depth)
+    if len(_ARANGE_MEMO) > 300000:
+        _ARANGE_MEMO.clear()
+    _ARANGE_MEMO[mk] = (st.assume, r)
+    return r
+
+
+def _arange(ev, st, t, depth=0):
+    lo, hi = T.urange(t)
+    idx, aset = assume_index(st.assume) if st.assume else ({}, set())
+    for kind, c in idx.get(t.id, ()):
+        if kind == "lt":
+            hi = min(hi, c - 1)
+        elif kind == "ge":
+            lo = max(lo, c)
+        elif kind == "gt":
+            lo = max(lo, c + 1)
+        elif kind == "le":
+            hi = min(hi, c)
+        elif kind == "ne0":
+            lo = max(lo, 1)
+        elif kind == "eq0":
+            lo, hi = 0, 0
+    if depth == 0 and st.assume and lo == 0 and (t.op in ("sym", "rng", "res", "select") or (t.op == "aff" and t.w <= 16 and len(t.args) == 1)):
         z = T.eqz(t)
         if z.op != "const":
-            if T.bnot(z) in st.assume:
+            if T.bnot(z).id in aset:
                 lo = max(lo, 1)
-            elif z in st.assume:
+            elif z.id in aset:
                 hi = 0
     if depth < 6:
         if t.op == "uabs":
